@@ -96,6 +96,14 @@ fn construct_case<K: Kern<D>, const D: usize>(cx: &mut Ctx, pts: &[Vec<i64>], cf
     }
 }
 
+fn construct_case_cfg<K: Kern<D>, const D: usize>(cx: &mut Ctx, pts: &[Vec<i64>], ctor: Ctor, g: TopologyGuarantee, opts: Opts, tag: &str) {
+    cx.start_case(format!("{tag} k={} {ctor:?} {g:?} {}", K::NAME, opts.name()));
+    let input = cx.inputs(pts, false);
+    if let Some(dt) = op_construct::<K, D>(&mut cx.tr, 0, ctor, g, opts, &input) {
+        op_verdicts(&mut cx.tr, 0, &dt, 0);
+    }
+}
+
 pub fn drive_construct(cx: &mut Ctx) {
     // (a) exhaustive: every subset of the 3x3 grid with >= 3 points (2-D)
     let g2 = grid(2, 3);
@@ -130,6 +138,33 @@ pub fn drive_construct(cx: &mut Ctx) {
             let pts = subset(&g3, mask);
             let k = cfg_i % 2;
             dispatch!(3, k, construct_case(cx, &pts, cfg_i, "cube"));
+        }
+    }
+    // (b2) exactly degenerate 3-D grids (2x2x3, 2x3x3: every 4 neighbours coplanar, every 8 cospherical) in
+    //      random caller orders - with Input ordering the order matters - under every guarantee, with and
+    //      without retries, through constructors with and without statistics
+    {
+        let grids: [Vec<Vec<i64>>; 2] = [
+            grid(3, 3).into_iter().filter(|p| p[0] < 2 && p[1] < 2).collect(),
+            grid(3, 3).into_iter().filter(|p| p[0] < 2).collect(),
+        ];
+        let n_orders = if cx.thorough { 400 } else { 120 };
+        for i in 0..n_orders {
+            let mut r = Rng::new(cx.seed * 77_003 + i as u64);
+            if !cx.mine() {
+                continue;
+            }
+            let mut pts = grids[i % 2].clone();
+            r.shuffle(&mut pts);
+            let g = GUARANTEES[(i / 2) % 3];
+            let ctor = [Ctor::WithOptions, Ctor::Builder, Ctor::WithOptionsStats, Ctor::WithGuarantee][(i / 6) % 4];
+            let opts = Opts { order: if i % 5 == 4 { 3 } else { 0 }, dedup: 0, simplex: (i / 24) % 2, retry: [0, 3, 0, 1][(i / 3) % 4] };
+            let k = (i / 12) % 2;
+            let tag = format!("C01 grid3d D=3 i={i}");
+            match k {
+                0 => construct_case_cfg::<FastKernel<f64>, 3>(cx, &pts, ctor, g, opts, &tag),
+                _ => construct_case_cfg::<RobustKernel<f64>, 3>(cx, &pts, ctor, g, opts, &tag),
+            }
         }
     }
     // (c) {0,1}^4 subsets (sampled) and sampled families for D = 2..5
@@ -728,8 +763,14 @@ fn remove_case<K: Kern<D>, const D: usize>(cx: &mut Ctx, r: &mut Rng, idx: usize
         return;
     }
     let Some(mut dt) = build_base::<K, D>(cx, &pts, g) else { return };
-    if idx % 4 == 1 {
-        if !op_set_policy(&mut cx.tr, 0, &mut dt, PolicySet::Repair(DelaunayRepairPolicy::Never)) {
+    let pol = match idx % 5 {
+        1 => Some(DelaunayRepairPolicy::Never),
+        2 => Some(DelaunayRepairPolicy::EveryN(NonZeroUsize::new(2).unwrap())),
+        3 => Some(DelaunayRepairPolicy::EveryN(NonZeroUsize::new(3).unwrap())),
+        _ => None,
+    };
+    if let Some(p) = pol {
+        if !op_set_policy(&mut cx.tr, 0, &mut dt, PolicySet::Repair(p)) {
             return;
         }
     }
@@ -749,7 +790,7 @@ fn remove_case<K: Kern<D>, const D: usize>(cx: &mut Ctx, r: &mut Rng, idx: usize
         if vs.is_empty() {
             break;
         }
-        if r.chance(1, 5) && !removed.is_empty() {
+        if r.chance(2, 5) && !removed.is_empty() {
             // re-insert a previously removed position (fresh uuid)
             let p = removed.pop().unwrap();
             let v = VIn::lattice(cx.fresh_uuid(), p, Some(9));
